@@ -201,6 +201,59 @@ theorem quit_goes_down (P : Prog) (c : Core) (hs : c.startingUp = false) : (step
   unfold doQuit
   cases hr : c.running <;> simp [hs, hr]
 
+/-! ## listener wiring of `listen_to_dependencies`
+
+The waiter that `listen_to_dependencies` declares is covered by the rendezvous theorems (it fires exactly once, exactly when its
+components are registered).  These theorems are about *which* components it names and *what* it binds when it fires. -/
+
+/-- **Parsing.**  For every component name (any characters, underscores included, even empty) and every event name without an
+underscore, the handler attribute `_handle_<c>_<e>` names exactly the component `c`. -/
+theorem handler_names_component (c e : Str) (he : '_' ∉ e) : handlerComponentL (handlerName c e) = some c :=
+  handlerComponent_spec c e he
+
+/-- **Binding.**  `addListeners(sink, prefix=c)` binds the attribute `_handle_<c>_<e>` to the event named `e`, for component
+names that are non-empty and do not start with an underscore. -/
+theorem handler_binds_event (c e : Str) (ch : Char) (cs : List Char) (hc : c = ch :: cs) (hch : ch ≠ '_') :
+    boundEventL c (handlerName c e) = some e :=
+  boundEvent_spec c e ch cs hc hch
+
+/-- **What is waited for.**  The sink's waiter names exactly the explicitly given components and the components named by its
+handler attributes, each once. -/
+theorem listen_deps_exact (explicit attrs : List Str) (c : Str) :
+    (c ∈ listenDepsL explicit attrs ↔ c ∈ explicit ∨ ∃ a ∈ attrs, handlerComponentL a = some c) ∧
+    (listenDepsL explicit attrs).Nodup :=
+  ⟨listenDeps_mem explicit attrs c, nodup_dedupG _⟩
+
+/-- **What is bound.**  When the waiter fires, a listener (attribute, component, event) is added iff the component is one of
+the dependencies, the attribute is one of the sink's, the prefix rule maps it to that event, and the component raises it. -/
+theorem wiring_exact (deps attrs : List Str) (events : Str → Option (List Str)) (a c e : Str) :
+    (a, c, e) ∈ wiringL deps attrs events ↔
+      c ∈ deps ∧ a ∈ attrs ∧ boundEventL c a = some e ∧ ∃ evs, events c = some evs ∧ e ∈ evs :=
+  wiring_mem deps attrs events a c e
+
+/-- **Bound once.**  With distinct attribute names (`dir(sink)`), no listener is added twice. -/
+theorem wiring_once (explicit attrs : List Str) (events : Str → Option (List Str)) (ha : attrs.Nodup) :
+    (wiringL (listenDepsL explicit attrs) attrs events).Nodup :=
+  wiring_nodup _ attrs events (nodup_dedupG _) ha
+
+/-- **End to end.**  A sink that has a method `_handle_<c>_<e>` (c non-empty, not starting with `_`; e without `_`) for an
+event `e` that component `c` raises waits for `c`, and when its waiter fires that method is bound to `e` of `c`. -/
+theorem handler_wired (explicit attrs : List Str) (events : Str → Option (List Str)) (c e : Str) (ch : Char) (cs : List Char)
+    (evs : List Str) (hc : c = ch :: cs) (hch : ch ≠ '_') (he : '_' ∉ e) (ha : handlerName c e ∈ attrs)
+    (hev : events c = some evs) (hin : e ∈ evs) :
+    c ∈ listenDepsL explicit attrs ∧
+    (handlerName c e, c, e) ∈ wiringL (listenDepsL explicit attrs) attrs events := by
+  have hdep : c ∈ listenDepsL explicit attrs :=
+    (listenDeps_mem explicit attrs c).2 (Or.inr ⟨_, ha, handlerComponent_spec c e he⟩)
+  exact ⟨hdep, (wiring_mem _ attrs events _ c e).2 ⟨hdep, ha, boundEvent_spec c e ch cs hc hch, evs, hev, hin⟩⟩
+
+/-- non-vacuity: component `a_b`, event `Ev`; a sink with that handler and a decoy -/
+example : handlerComponentL (handlerName ['a', '_', 'b'] ['E', 'v']) = some ['a', '_', 'b'] := by decide
+example : boundEventL ['a', '_', 'b'] (handlerName ['a', '_', 'b'] ['E', 'v']) = some ['E', 'v'] := by decide
+example : wiringL (listenDepsL [] [handlerName ['a', '_', 'b'] ['E', 'v'], ['x']]) [handlerName ['a', '_', 'b'] ['E', 'v'], ['x']]
+    (fun c => if c = ['a', '_', 'b'] then some [['E', 'v']] else none)
+    = [(handlerName ['a', '_', 'b'] ['E', 'v'], ['a', '_', 'b'], ['E', 'v'])] := by decide
+
 /-! ## the defect repaired by D2, and non-vacuity -/
 
 /-- D2: a handler of GoingUp takes a deferral and releases it at once. -/
